@@ -15,6 +15,9 @@ def run(prop, tier, seed):
     if prop == 'C13':
         from . import engine_framing
         return engine_framing.run(prop, tier, seed)
+    if prop == 'C20':
+        from . import engine_fallback
+        return engine_fallback.run(prop, tier, seed)
     if prop == 'C15':
         from . import engine_batteries
         return engine_batteries.run(prop, tier, seed)
@@ -36,6 +39,9 @@ def replay(path):
     if eng == 'framing':
         from . import engine_framing
         return engine_framing.replay(path)
+    if eng == 'fallback':
+        from . import engine_fallback
+        return engine_fallback.replay(path)
     if eng == 'batteries':
         from . import engine_batteries
         return engine_batteries.replay(path)
